@@ -695,7 +695,7 @@ func c16RebuildUnits(u *schema.UnitsDefinition) (out *schema.UnitsDefinition) {
 
 func runC16(c *wk.Ctx) {
 	t := &c16{c}
-	c.Meta("rule", "cases: (a) every integer in [0,200000] x 5 built-in + 3 generated unit sets x {short,long} format->ParseInt; (b) per generated definition (names with regexp metacharacters / prefixes of each other, arbitrary multipliers; every third one rebuilt from the description of a schema that uses it, as a client receives it) and per built-in set: powers of ten +-1, multiplier boundaries +-1, random 63-bit ints, floats with <=6 decimals, generated well-formed strings and near-miss mutants compared with a big-rational reference parser, also through IntSchema/FloatSchema.Unserialize. distinct = hash(units definition, operation, input); every case is non-trivial (a formatted/parsed quantity); evaluations counts individual format/parse checks")
+	c.Meta("rule", "cases: (a) every integer in [0,200000] x 5 built-in + 3 generated unit sets x {short,long} format->ParseInt; (b) per generated definition (names with regexp metacharacters / prefixes of each other, arbitrary multipliers; every third one rebuilt from the description of a schema that uses it, as a client receives it) and per built-in set: powers of ten +-1, multiplier boundaries +-1, random 63-bit ints, floats with <=6 decimals, generated well-formed strings and near-miss mutants compared with a big-rational reference parser, also through IntSchema/FloatSchema.Unserialize. distinct = hash(units definition, operation, input); every case is non-trivial (a formatted/parsed quantity); evaluations counts individual format/parse checks Generated definitions contain names that differ in case only; a near-miss class changes the case of letters.")
 	c.Meta("assumptions", []string{"floats with at most six decimals must come back within 1e-9 relative (the formatter prints %f); floats with more decimals, down to values that print as zero, must come back as a number within 1e-6 absolute",
 		"bare numbers without a unit name, repeated units, fractions on non-base units and leading zeros are unspecified: only 'never a wrong number' is checked for them"})
 	c.Floor("int_roundtrips", 1000)
